@@ -26,6 +26,7 @@ RULE = (
     "classes; remaining arguments are synthesised from a registry keyed by parameter name (in_place is forced to False). "
     "Oracle: deep snapshot (node order, edge order, members, memberships, member container types, deep copies of all "
     "attribute dicts, network attrs, frozen flag, next automatic edge ID) is identical before and after, whether the "
+    "After the drawn callable, every cheap accessor of the class (all view methods, the degree / size / attrs statistics, the class-level accessors; two-valued options both ways) runs on the same network and the snapshot is compared once more; the second operand of << is an input too; attribute values include sets and tuples holding lists. "
     "call returns or raises. non-trivial = the call returned on a network with >=2 edges; distinct = distinct "
     "(callable, network, picks) JSON. An enumerated sweep calls every callable on two fixed networks per class."
 )
